@@ -52,8 +52,10 @@ Record ccase := {
 (** ** Equalities *)
 Definition cond_eqb (a b : cond) : bool :=
   (c_type a =? c_type b) && (c_status a =? c_status b) && (c_obsgen a =? c_obsgen b) && Bool.eqb (c_ok a) (c_ok b).
+Definition label_eqb (a b : label) : bool :=
+  match a, b with LAbsent, LAbsent | LTrue, LTrue => true | LOther x, LOther y => x =? y | _, _ => false end.
 Definition obj_eqb (a b : obj) : bool :=
-  data_eqb (o_data a) (o_data b) && Bool.eqb (o_label a) (o_label b) && (o_ctrl a =? o_ctrl b) && (o_gen a =? o_gen b)
+  data_eqb (o_data a) (o_data b) && label_eqb (o_lbl a) (o_lbl b) && (o_ctrl a =? o_ctrl b) && (o_gen a =? o_gen b)
   && option_eqb N.eqb (o_sobs a) (o_sobs b) && list_eqb cond_eqb (o_conds a) (o_conds b).
 Definition store_sub (a b : store) : bool :=
   forallb (fun kv => option_eqb obj_eqb (lookup (fst kv) a) (lookup (fst kv) b)) a.
@@ -72,7 +74,7 @@ Definition tmpl_eqb (a b : tmpl tcode) : bool :=
   && list_eqb pair_eqb (t_conds a) (t_conds b) && option_eqb key_eqb (t_ctrlof a) (t_ctrlof b).
 Definition world_eqb (a b : cworld) : bool :=
   store_eqb (w_store a) (w_store b) && option_eqb tmpl_eqb (w_tmpl a) (w_tmpl b)
-  && watch_eqb (w_watch a) (w_watch b) && (w_env a =? w_env b).
+  && watch_eqb (w_watch a) (w_watch b) && (w_env a =? w_env b) && Bool.eqb (w_pending a) (w_pending b).
 Definition wres_eqb (a b : wres) : bool :=
   match a, b with WOk, WOk | WAlreadyExists, WAlreadyExists | WBadRequest, WBadRequest | WOther, WOther => true | _, _ => false end.
 Definition ev_eqb (a b : ev) : bool :=
@@ -215,20 +217,26 @@ Definition cl_enqueue (pre : cworld) (k : key) (changed : obj -> bool) (b : bool
   | None => true
   end.
 
+(** The clauses of one pass. *)
+Definition pass_clauses (ivres ivopt : N) (pre post : cworld) (r : pres) : list bool :=
+  match w_tmpl pre with
+  | None => [is_nil (p_evs r); true; true; true; true; true; true; true; true]
+  | Some t =>
+      if t_del t then [true; true; true; true; true; cl_delete post t r; true; true; true]
+      else [cl_render pre t r; cl_required ivres pre post t r; cl_optional ivopt pre t r; cl_unparsable pre post t r;
+            cl_nsbound pre post t r; true;
+            negb (successful pre post r) || cl_tracks post t;
+            negb (successful pre post r) || cl_quiescent post t r; true]
+  end.
+
 (** All nine clauses of one step. *)
 Definition step_clauses (ivres ivopt : N) (pre : cworld) (s : cstep) (o : sobs) (post : cworld) : list bool :=
   let nine := [true; true; true; true; true; true; true; true; true] in
   match s, o with
-  | SPass, OPass r =>
-      match w_tmpl pre with
-      | None => [is_nil (p_evs r); true; true; true; true; true; true; true; true]
-      | Some t =>
-          if t_del t then [true; true; true; true; true; cl_delete post t r; true; true; true]
-          else [cl_render pre t r; cl_required ivres pre post t r; cl_optional ivopt pre t r; cl_unparsable pre post t r;
-                cl_nsbound pre post t r; true;
-                negb (successful pre post r) || cl_tracks post t;
-                negb (successful pre post r) || cl_quiescent post t r; true]
-      end
+  | SPass, OPass r => pass_clauses ivres ivopt pre post r
+  | SDrain, OPass r =>        (* the worker ran a pass: only legitimate if a request was pending; then judged like any pass *)
+      if w_pending pre then pass_clauses ivres ivopt pre post r else [false; true; true; true; true; true; true; true; true]
+  | SDrain, ONone => [negb (w_pending pre); true; true; true; true; true; true; true; true]
   | SPut k d _, OEnq b => [true; true; true; true; true; true; true; true; cl_enqueue pre k (fun o => negb (data_eqb (o_data o) d)) b]
   | SDel k, OEnq b => [true; true; true; true; true; true; true; true; cl_enqueue pre k (fun _ => true) b]
   | SPoke _ _ _, ONone | SEdit _ _, ONone | STDel, ONone | SEnv _, ONone => nine
@@ -262,6 +270,43 @@ Definition final_clause (c : ccase) : bool :=
   | _, _ => true
   end.
 
+(** Quiescence by events alone. A pass [arms] the clause when it succeeded with every source present (so
+    nothing is left to a retry timer); source creations / edits / deletions and idle worker steps keep it
+    armed, anything else (template edit, environment change, status write, template deletion) disarms
+    it. If the history ends armed with no request pending, the stored target must equal the template
+    rendered with the sources as they are at the end, and be visible to the cache. *)
+Definition arms (pre post : cworld) (r : pres) : bool :=
+  match live pre with
+  | Some t => successful pre post r && negb (self_write t r)
+              && forallb (fun s => negb (is_none (src_obj post t s))) (t_sources t)
+  | None => false
+  end.
+
+Fixpoint quiet_scan (pre : cworld) (ss : list cstep) (os : list (sobs * cworld)) (armed : bool) : bool * cworld :=
+  match ss, os with
+  | s :: ss', (o, post) :: os' =>
+      quiet_scan post ss' os'
+        match s, o with
+        | SPass, OPass r | SDrain, OPass r => arms pre post r
+        | SDrain, ONone | SPut _ _ _, OEnq _ | SDel _, OEnq _ => armed
+        | _, _ => false
+        end
+  | _, _ => (armed, pre)
+  end.
+
+Definition target_follows (w : cworld) : bool :=
+  match w_tmpl w with
+  | Some t' => match c_expected t' w with
+               | Some (k, d) => match lookup k (w_store w) with Some o => data_eqb (o_data o) d && o_label o | None => false end
+               | None => false
+               end
+  | None => false
+  end.
+
+Definition quiet_clause (c : ccase) : bool :=
+  let '(armed, w) := quiet_scan (cc_init_obs c) (cc_steps c) (cc_obs c) false in
+  if armed && negb (w_pending w) then target_follows w else true.
+
 Definition clause_n (n : nat) (l : list (list bool)) : bool := forallb (fun c => nth n c false) l.
 
 Definition all_clauses (c : ccase) : list (list bool) :=
@@ -270,7 +315,7 @@ Definition all_clauses (c : ccase) : list (list bool) :=
 Definition clause_vector (c : ccase) : list bool :=
   let l := all_clauses c in
   [clause_n 0 l; clause_n 1 l; clause_n 2 l; clause_n 3 l; clause_n 4 l;
-   clause_n 5 l; clause_n 6 l; clause_n 7 l && final_clause c; clause_n 8 l].
+   clause_n 5 l; clause_n 6 l; clause_n 7 l && final_clause c && quiet_clause c; clause_n 8 l].
 
 (** The monitor: every clause on every step, no exception. *)
 Definition monitor (c : ccase) : bool := forallb (fun b => b) (clause_vector c).
@@ -423,11 +468,37 @@ Section Sound.
 
   Definition nine_true : list bool := [true; true; true; true; true; true; true; true; true].
 
+  Lemma pass_sound w w' r b : pass w = (w', r) -> pass_clauses ivres ivopt w (with_pending w' b) r = nine_true.
+  Proof.
+    intros Ep. unfold pass_clauses. destruct (w_tmpl w) as [t|] eqn:Et.
+    - destruct (t_del t) eqn:Ed.
+      + destruct (delete_frees _ _ _ _ _ _ _ _ Et Ed Ep) as (Hev & _ & _ & _ & _ & Hme & _ & Hfin & _).
+        unfold cl_delete. rewrite Hev. cbn [w_watch w_tmpl with_pending].
+        assert (Hw : forallb (fun p => negb (snd p =? me)) (w_watch w') = true).
+        { apply forallb_forall. intros [kd o] Hin. cbn. destruct (o =? me) eqn:E; [|reflexivity]. apply N.eqb_eq in E. subst o.
+          specialize (Hme kd). unfold watched in Hme.
+          assert (existsb (fun p => (fst p =? kd) && (snd p =? me)) (w_watch w') = true).
+          { apply existsb_exists. exists (kd, me). split; [assumption|]. cbn. now rewrite !N.eqb_refl. }
+          congruence. }
+        rewrite Hw. destruct (t_fin t); cbn; [rewrite (Hfin eq_refl)|]; reflexivity.
+      + change (cl_required ivres w (with_pending w' b) t r) with (cl_required ivres w w' t r).
+        change (cl_unparsable w (with_pending w' b) t r) with (cl_unparsable w w' t r).
+        change (cl_nsbound w (with_pending w' b) t r) with (cl_nsbound w w' t r).
+        change (successful w (with_pending w' b) r) with (successful w w' r).
+        change (cl_tracks (with_pending w' b) t) with (cl_tracks w' t).
+        change (cl_quiescent (with_pending w' b) t r) with (cl_quiescent w' t r).
+        unfold nine_true.
+        rewrite (s_render _ _ _ _ Et Ed Ep), (s_required _ _ _ _ Et Ed Ep), (s_optional _ _ _ _ Et Ed Ep),
+          (s_unparsable _ _ _ _ Et Ed Ep), (s_nsbound _ _ _ _ Et Ed Ep), (s_tracks _ _ _ _ Et Ed Ep),
+          (s_quiescent _ _ _ _ Et Ed Ep). reflexivity.
+    - rewrite (absent_noop _ _ _ _ _ Et) in Ep. injection Ep as <- <-. reflexivity.
+  Qed.
+
   Lemma step_sound w s :
     let '(w', o) := do_step w s in
     step_clauses ivres ivopt w s o w' = nine_true.
   Proof.
-    destruct s as [k d lbl|k|k so cs|srcs c| |e|]; cbn [Template.do_step].
+    destruct s as [k d lbl|k|k so cs|srcs c| |e| |]; cbn [Template.do_step]; unfold note.
     - destruct (lookup k (w_store w)) as [o|] eqn:El.
       + destruct (data_eqb (o_data o) d) eqn:Ed; cbn; unfold cl_enqueue; rewrite El, Ed; cbn.
         * now rewrite andb_false_r.
@@ -439,23 +510,10 @@ Section Sound.
     - destruct (w_tmpl w); reflexivity.
     - destruct (w_tmpl w) as [t|]; [destruct (t_fin t)|]; reflexivity.
     - reflexivity.
-    - destruct (pass w) as [w' r] eqn:Ep. cbn [step_clauses].
-      destruct (w_tmpl w) as [t|] eqn:Et.
-      + destruct (t_del t) eqn:Ed.
-        * destruct (delete_frees _ _ _ _ _ _ _ _ Et Ed Ep) as (Hev & _ & _ & _ & _ & Hme & _ & Hfin & _).
-          unfold cl_delete. rewrite Hev.
-          assert (Hw : forallb (fun p => negb (snd p =? me)) (w_watch w') = true).
-          { apply forallb_forall. intros [kd o] Hin. cbn. destruct (o =? me) eqn:E; [|reflexivity]. apply N.eqb_eq in E. subst o.
-            specialize (Hme kd). unfold watched in Hme.
-            assert (existsb (fun p => (fst p =? kd) && (snd p =? me)) (w_watch w') = true).
-            { apply existsb_exists. exists (kd, me). split; [assumption|]. cbn. now rewrite !N.eqb_refl. }
-            congruence. }
-          rewrite Hw. destruct (t_fin t); cbn; [rewrite (Hfin eq_refl)|]; reflexivity.
-        * unfold nine_true.
-          rewrite (s_render _ _ _ _ Et Ed Ep), (s_required _ _ _ _ Et Ed Ep), (s_optional _ _ _ _ Et Ed Ep),
-            (s_unparsable _ _ _ _ Et Ed Ep), (s_nsbound _ _ _ _ Et Ed Ep), (s_tracks _ _ _ _ Et Ed Ep),
-            (s_quiescent _ _ _ _ Et Ed Ep). reflexivity.
-      + rewrite (absent_noop _ _ _ _ _ Et) in Ep. injection Ep as <- <-. reflexivity.
+    - destruct (pass w) as [w' r] eqn:Ep. cbn [step_clauses]. now apply pass_sound.
+    - destruct (w_pending w) eqn:Epd.
+      + destruct (pass w) as [w' r] eqn:Ep. cbn [step_clauses]. rewrite Epd. now apply pass_sound.
+      + cbn [step_clauses]. rewrite Epd. reflexivity.
   Qed.
 End Sound.
 
@@ -522,6 +580,9 @@ Section Sound2.
     rewrite Hlw, rev_involutive, last_world_run. set (wp := final w ss0).
     destruct s0; try reflexivity.
     cbn [Template.do_step]. destruct (pass wp) as [w' r] eqn:Ep. cbn [fst snd].
+    change (successful wp (with_pending w' false) r) with (successful wp w' r).
+    change (ref_of (with_pending w' false)) with (ref_of w').
+    change (w_store (with_pending w' false)) with (w_store w').
     destruct (live wp) as [t|] eqn:El; [|reflexivity].
     unfold live in El. destruct (w_tmpl wp) as [t0|] eqn:Et; [|discriminate]. destruct (t_del t0) eqn:Ed; [discriminate|].
     injection El as <-.
@@ -535,10 +596,71 @@ Section Sound2.
     destruct (ref_of_expected _ _ _ _ H1 H2) as (k0 & -> & ->). rewrite Ens, H3, H4. apply data_eqb_refl.
   Qed.
 
+  (** the quiet clause: while armed, either a request is pending or the world is calm *)
+  Lemma arms_calm wp w' r b : pass wp = (w', r) -> arms wp (with_pending w' b) r = true -> calm R SC (with_pending w' b).
+  Proof.
+    intros Ep Ha. unfold arms in Ha. destruct (live wp) as [t|] eqn:El; [|discriminate].
+    unfold live in El. destruct (w_tmpl wp) as [t0|] eqn:Et; [|discriminate]. destruct (t_del t0) eqn:Ed; [discriminate|].
+    injection El as <-. apply andb_true_iff in Ha. destruct Ha as [Ha Hall]. apply andb_true_iff in Ha. destruct Ha as [Hsucc Hsw].
+    apply negb_true_iff in Hsw. change (successful wp (with_pending w' b) r) with (successful wp w' r) in Hsucc.
+    destruct (successful_inv _ _ _ _ Et Ed Hsucc) as [He Hi].
+    apply (calm_with_pending R SC). apply (success_calms _ _ _ _ _ _ _ _ Et Ed Ep He Hi (self_write_false _ _ Hsw)).
+    intros s Hs E. rewrite forallb_forall in Hall. specialize (Hall s Hs). unfold src_obj in Hall. cbn [w_store with_pending] in Hall.
+    rewrite E in Hall. discriminate.
+  Qed.
+
+  Definition quiet_inv (armed : bool) (w : cworld) : Prop := armed = true -> w_pending w = true \/ calm R SC w.
+
+  Lemma quiet_scan_sound ss : forall w armed, quiet_inv armed w ->
+    let '(a, wf) := quiet_scan w ss (run w ss) armed in quiet_inv a wf.
+  Proof.
+    induction ss as [|s r IH]; intros w armed Hinv; [exact Hinv|].
+    cbn [Template.run quiet_scan]. destruct (do_step w s) as [w1 o1] eqn:Es. cbn [quiet_scan].
+    apply IH. destruct s; cbn [Template.do_step] in Es; unfold note in Es.
+    - (* put *)
+      assert (Ho : exists b, o1 = OEnq b).
+      { destruct (lookup k (w_store w)); [destruct (data_eqb (o_data o) d)|]; injection Es as <- <-; eauto. }
+      destruct Ho as (b & ->). intros Ha. destruct (Hinv Ha) as [Hp|Hc].
+      + left. destruct (lookup k (w_store w)); [destruct (data_eqb (o_data o) d)|]; injection Es as <- _; cbn; now rewrite Hp.
+      + destruct b.
+        * left. destruct (lookup k (w_store w)); [destruct (data_eqb (o_data o) d)|]; injection Es as <- Hb; try discriminate; cbn; rewrite ?Hb; apply orb_true_r.
+        * right. apply (calm_quiet_step R SC ivres ivopt w (SPut k d lbl)); [assumption|left; eauto|].
+          cbn [Template.do_step]. unfold note. exact Es.
+    - (* del *)
+      assert (Ho : exists b, o1 = OEnq b).
+      { destruct (lookup k (w_store w)); injection Es as <- <-; eauto. }
+      destruct Ho as (b & ->). intros Ha. destruct (Hinv Ha) as [Hp|Hc].
+      + left. destruct (lookup k (w_store w)); injection Es as <- _; cbn; now rewrite Hp.
+      + destruct b.
+        * left. destruct (lookup k (w_store w)); injection Es as <- Hb; try discriminate; cbn; rewrite ?Hb; apply orb_true_r.
+        * right. apply (calm_quiet_step R SC ivres ivopt w (SDel k)); [assumption|right; eauto|].
+          cbn [Template.do_step]. unfold note. exact Es.
+    - destruct (lookup k (w_store w)); injection Es as <- <-; intros Ha; discriminate.
+    - destruct (w_tmpl w); injection Es as <- <-; intros Ha; discriminate.
+    - destruct (w_tmpl w) as [t|]; [destruct (t_fin t)|]; injection Es as <- <-; intros Ha; discriminate.
+    - injection Es as <- <-. intros Ha; discriminate.
+    - (* pass *)
+      destruct (pass w) as [w' r'] eqn:Ep. injection Es as <- <-. intros Ha. right. now apply (arms_calm w w' r').
+    - (* drain *)
+      destruct (w_pending w) eqn:Epd.
+      + destruct (pass w) as [w' r'] eqn:Ep. injection Es as <- <-. intros Ha. right. now apply (arms_calm w w' r').
+      + injection Es as <- <-. exact Hinv.
+  Qed.
+
+  Lemma quiet_sound w ss : quiet_clause (model_case w ss) = true.
+  Proof.
+    unfold quiet_clause, model_case. cbn [cc_init_obs cc_steps cc_obs].
+    pose proof (quiet_scan_sound ss w false (fun H => ltac:(discriminate))) as H.
+    destruct (quiet_scan w ss (run w ss) false) as [a wf]. destruct a; [|reflexivity]. cbn [andb].
+    destruct (w_pending wf) eqn:Ep; [reflexivity|]. cbn [negb].
+    destruct (H eq_refl) as [Hp|(t & k & d & o & Ht & _ & Hex & _ & Hlk & Hod & Hol & _)]; [congruence|].
+    unfold target_follows. rewrite Ht. unfold c_expected. rewrite Hex, Hlk, Hod, Hol, data_eqb_refl. reflexivity.
+  Qed.
+
   Theorem monitor_sound w ss : monitor (model_case w ss) = true.
   Proof.
     unfold monitor, clause_vector, all_clauses. cbn [model_case cc_ivres cc_ivopt cc_init_obs cc_steps cc_obs].
-    pose proof (steps_sound ss w) as H. rewrite (final_sound w ss).
+    pose proof (steps_sound ss w) as H. rewrite (final_sound w ss), (quiet_sound w ss).
     cbn [forallb].
     rewrite (clause_n_good 0 _ ltac:(lia) H), (clause_n_good 1 _ ltac:(lia) H), (clause_n_good 2 _ ltac:(lia) H),
       (clause_n_good 3 _ ltac:(lia) H), (clause_n_good 4 _ ltac:(lia) H), (clause_n_good 5 _ ltac:(lia) H),
@@ -550,12 +672,12 @@ End Sound2.
     monitor accepts the model's run of it (the pass now reports Invalid), and it rejects the run the model
     makes with the namespace check as it was before aa47ee3 - so a recurrence of the defect is reported. *)
 Definition witness_world : cworld :=
-  {| w_store := [((3, 0, 1), {| o_data := [(1, 7)]; o_label := false; o_ctrl := 0; o_gen := 1; o_sobs := None; o_conds := [] |})];
+  {| w_store := [((3, 0, 1), {| o_data := [(1, 7)]; o_lbl := LAbsent; o_ctrl := 0; o_gen := 1; o_sobs := None; o_conds := [] |})];
      w_tmpl := Some {| t_ns := 1;
                        t_sources := [{| s_kind := 3; s_ns := 1; s_name := 1; s_opt := false; s_items := [(1, 1)] |}];
                        t_code := {| tc_form := 0; tc_kind := 1; tc_ns := 0; tc_name := 100; tc_pick := []; tc_orefs := false |};
                        t_gen := 1; t_fin := false; t_del := false; t_invalid := 0; t_conds := []; t_ctrlof := None |};
-     w_watch := []; w_env := 1 |}.
+     w_watch := []; w_env := 1; w_pending := false |}.
 
 Definition v0_case (w : cworld) (ss : list cstep) : ccase :=
   let obs := run R SC ns_escalation_v0 30 60 w ss in
@@ -569,17 +691,17 @@ Proof. repeat split; vm_compute; reflexivity. Qed.
 
 (** A history in which everything the quiescence theorems assume holds (non-vacuity). *)
 Definition sample_world : cworld :=
-  {| w_store := [((1, 1, 1), {| o_data := [(1, 5)]; o_label := false; o_ctrl := 0; o_gen := 1; o_sobs := None; o_conds := [] |})];
+  {| w_store := [((1, 1, 1), {| o_data := [(1, 5)]; o_lbl := LAbsent; o_ctrl := 0; o_gen := 1; o_sobs := None; o_conds := [] |})];
      w_tmpl := Some {| t_ns := 1;
                        t_sources := [{| s_kind := 1; s_ns := 0; s_name := 1; s_opt := false; s_items := [(1, 1)] |};
                                      {| s_kind := 2; s_ns := 0; s_name := 2; s_opt := true; s_items := [(1, 2)] |}];
                        t_code := {| tc_form := 0; tc_kind := 1; tc_ns := 0; tc_name := 100; tc_pick := []; tc_orefs := false |};
                        t_gen := 1; t_fin := false; t_del := false; t_invalid := 0; t_conds := []; t_ctrlof := None |};
-     w_watch := []; w_env := 1 |}.
-Definition sample_history : list cstep := [SPass; SPut (1, 1, 1) [(1, 6)] false; SPass].
+     w_watch := []; w_env := 1; w_pending := false |}.
+Definition sample_history : list cstep := [SPass; SPut (1, 1, 1) [(1, 6)] LAbsent; SPass].
 
 Lemma sample_ok :
-  let wp := final render_code scope_tbl ns_escalation 30 60 sample_world [SPass; SPut (1, 1, 1) [(1, 6)] false] in
+  let wp := final render_code scope_tbl ns_escalation 30 60 sample_world [SPass; SPut (1, 1, 1) [(1, 6)] LAbsent] in
   let w := final render_code scope_tbl ns_escalation 30 60 sample_world sample_history in
   let r := snd (pass render_code scope_tbl ns_escalation 30 60 wp) in
   (exists t, w_tmpl wp = Some t /\ t_del t = false /\
